@@ -8,6 +8,18 @@ HERE = os.path.dirname(os.path.dirname(os.path.abspath(__file__)))
 ALL = ["C%02d" % i for i in range(1, 21)]
 
 CHECKS = {
+ "C11": dict(
+  category="exploration",
+  text="Monitor around the real format_emb.format_emboss_parse_tree on thousands of parseable texts (programs derived from "
+       "doc/grammar.md with random spacing/comments/docs, corpus, mutated corpus and format testdata) under random indent widths "
+       "1..8: never raises; output tokenizes and parses; own length-strict token comparison (up to whitespace, blank lines, "
+       "trailing blanks in comments/docs); raw IR from module_ir.build_ir equal without source positions; fmt(fmt(t)) == fmt(t); "
+       "built-in sanity_check_format_result agrees with the own comparison; emboss-format CLI sample equals the in-process result "
+       "and leaves the input untouched. Production coverage of the formatter is reported.",
+  note="Trusts tokenizer/parser/build_ir (monitored by C08-C10); only parseable inputs are judged; anonymous-field numbering "
+       "(a process-global counter) is renumbered by first appearance before IR comparison.",
+  technique="runtime monitor around the formatter (round-trip, idempotence and IR-equality oracles)",
+  design_ref="5/C11"),
  "C09": dict(
   category="exploration",
   text="Structural invariant checked on the two live Parser objects at a quiescent point: a lock-step product walk from state 0 "
